@@ -88,6 +88,10 @@ def where(ctx, report, facts, config, rule="C12.WHERE"):
             rootb = facts.bodies[rootb.parent_key]
         ok = rootb.qname in ALLOWED_TOUCH
         why = ALLOWED_TOUCH.get(rootb.qname)
+        if not ok and rootb.self_head == A.DB and not touches(b, (A.DISP, A.AD), "thread_local") and S.registers_thread_local(ctx, facts, rootb)[0]:
+            # a method of the builder that only registers (one boxed push on every way): nothing is run here
+            ok = True
+            why = "registration"
         if not ok and rootb.key in audited_cone and not rootb.raw.get("pub"):
             # a private helper only the audited bodies call: where it runs is decided by C12.CTX on its callers
             ok = True
